@@ -123,3 +123,19 @@ chk("C09", "exploration",
     "no outside listing, 200 bodies are files/listings of the tree (single file: exactly that file; unset: no non-shell 2xx, file handler never runs), shell endpoints keep acting as such (by their notices), one 'File requested' notice per file response.",
     "Symlinks inside the tree are outside the quantifier. net/http's own 400/301 answers are only checked for leaking content.",
     "DESIGN.md 5 C09")
+
+chk("C13", "model_checking",
+    "stateless DFS over all interleavings of concurrent simpleshell.Go calls at their Shell-callback scheduling points, plus exhaustive input pairs and call histories, against real TLS servers",
+    "Real TLS servers A, B and C (C presents the chain [C, A]); (a) every (server, fingerprint spelling) pair over 11 spellings (plain, prefixed, unpadded, 31/33 bytes, non-base64, prefix only, double prefix, "
+    "trailing blank, none); (b) every history of <=3 calls over 6 configurations (same URL with different pins included); (c) every schedule of 2 (thorough 3) concurrent calls, the scheduling points being the "
+    "callbacks Go makes (Output() sits exactly between transport configuration and the request). Oracle: reference verdict (chain contains the pinned key / ordinary validation), the server's handler runs and receives body bytes "
+    "only for accepted calls, a call reaches only its own server, http.DefaultClient / DefaultTransport settings unchanged after every step. Thorough adds a free-running -race pass.",
+    "Scheduling granularity is the callbacks, not every instruction; the -race pass covers unsynchronised accesses.",
+    "DESIGN.md 5 C13")
+chk("C14", "exploration",
+    "exhaustive grid over output size x descriptor x owned consumer/exit order x input x exit status against the real CmdShell and a helper child, child state read from /proc",
+    "Real CmdShell around this binary as child writing position-stamped bytes: sizes {0, 8, 4096, 32768, 32776, 65536, 65544, 98304, 200000} x {stdout, stderr, both} x bytes read before the child is gone or "
+    "blocked in write {0, 8, 4096, 32768, N-8, N} x input {empty, 1 KiB / 100 KiB echoed through the child, never closed} x exit status {0, 3}, consumers pausing 0.3-1.2 s after the child is gone, inputs to 1 MiB; "
+    "oracle: every stream arrives complete and in per-stream order before the terminal condition, input unchanged, nil for exit 0, error for exit 3.",
+    "Kernel pipe semantics trusted; the schedule axis is one owned choice plus a pause, not every interleaving of the copy goroutines.",
+    "DESIGN.md 5 C14")
